@@ -16,7 +16,8 @@ ASSUMPTIONS = ["with ignore_channel set, only pairs with identical channel layou
                "single-channel sequence are demanded (the statement defines nothing else)"]
 REQUIRED_FLAGS = ["perturb:pitch", "perturb:onset", "perturb:length", "perturb:velocity", "perturb:channel",
                   "perturb:ts_value", "perturb:ts_tick", "perturb:ks_value", "perturb:ks_tick", "perturb:relabel",
-                  "identity:copy", "identity:order", "identity:relative", "identity:edited", "identity:history", "expected_equal_with_flag", "expected_unequal"]
+                  "identity:copy", "identity:order", "identity:relative", "identity:edited", "identity:history", "expected_equal_with_flag", "expected_unequal",
+                  "symmetry_checked_where_value_is_undefined"]
 FLAGSETS = list(itertools.product((False, True), repeat=4))  # channel, time_sig, key_sig, velocity
 
 
@@ -36,6 +37,12 @@ def bases(ctx):
             continue
         for ev in ([], [("ts", 0, 3, 4)], [("ks", 4, "G")], [("ts", 4, 3, 4), ("ks", 0, "G")]):
             out.append((ns, ev))          # includes the completely empty sequence
+    # every voice states the same signatures on its own channel: equal signature events on ONE tick on two channels
+    for ns in ([], [(0, 4, p, c1, 64)], [(0, 4, p, c0, 64), (0, 4, p, c1, 64)]):
+        out.append((ns, [("ts", 0, 3, 4, c0), ("ts", 0, 3, 4, c1)]))
+        if len(ns) < 2:
+            out.append((ns, [("ts", 0, 3, 4, c0), ("ts", 0, 3, 4, c1), ("ks", 0, "G", c1)]))
+            out.append((ns, [("ks", 2, "G", c1), ("ks", 2, "G", c0), ("ts", 2, 3, 4, c1)]))
     return out
 
 
@@ -83,8 +90,8 @@ def variants(ns, ev, ctx):
                     ("perturb:ks_tick", ("ks", e[1] + 8, "G"))]
         for kind, e2 in alts:
             yield (kind, ns, ev[:i] + [e2] + ev[i + 1:], "abs", None)
-    if len({n[3] for n in ns}) == 1 and ns:
-        yield ("perturb:relabel", ns, ev, "relabel", None)
+    if len({n[3] for n in ns}) == 1 and ns and not any(len(e) > (4 if e[0] == "ts" else 3) for e in ev):
+        yield ("perturb:relabel", ns, ev, "relabel", None)       # only for genuinely single-channel sequences
     if not ev:
         # only a signature is added: equal exactly under that signature's flag (also with an empty left operand)
         yield ("perturb:ts_value", ns, [("ts", 0, 3, 4)], "abs", None)
@@ -255,7 +262,18 @@ def check_case(case, ctx):
     n_checked = 0
     for fl in FLAGSETS:
         if fl[0] and not (same_layout or kind == "perturb:relabel"):
-            continue  # channel flag with a non-uniform channel change: not defined by the statement
+            # channel flag with a non-uniform channel change: the value is not defined by the statement, symmetry is
+            try:
+                g1 = a.equals(b, ignore_channel=fl[0], ignore_time_signature=fl[1], ignore_key_signature=fl[2], ignore_velocity=fl[3])
+                g2 = b.equals(a, ignore_channel=fl[0], ignore_time_signature=fl[1], ignore_key_signature=fl[2], ignore_velocity=fl[3])
+                n_checked += 1
+                R.flags.append("symmetry_checked_where_value_is_undefined")
+                if g1 is not g2:
+                    R.bad("not_symmetric", f"flags (channel,ts,ks,velocity)={fl}: a.equals(b)={g1}, b.equals(a)={g2}; base {bn} {be} "
+                                           f"variant {vn} {case['events']}")
+            except Exception as e:  # noqa: BLE001
+                R.bad("equals_raises", f"flags {fl}: {type(e).__name__}: {e}")
+            continue
         want = canon(bn, be, bn[0][3] if kind == "perturb:relabel" else 0, fl) == canon(vn, case["events"], vev_ch, fl)
         for x, y, nm in ((a, b, "a.equals(b)"), (b, a, "b.equals(a)")):
             try:
